@@ -69,6 +69,9 @@ UNIT = {'name': 'symbols', 'structs': [], 'consts': [
             {'const': 'SYMBOL_CODING_RAW', 'file': 'src/draco/compression/config/compression_shared.h', 'regex': r'SYMBOL_CODING_RAW = (\d+),'}],
         'functions': functions,
         'pre_text': ['struct vec_prob { uint32_t *data; size_t size; size_t cap; };',
+                     '/* ghost symbol decoder / bit reader used by the two symbol loops (contracts in contracts/symbols.c) */\nstruct GSD { int created; int started; int ended; uint32_t num_symbols; uint32_t decoded; };\nstruct DecoderBuffer;\n'
+                     'void GSD_ctor(struct GSD *d); bool GSD_Create(struct GSD *d, struct DecoderBuffer *b); uint32_t GSD_num_symbols(const struct GSD *d); bool GSD_StartDecoding(struct GSD *d, struct DecoderBuffer *b);\n'
+                     'uint32_t GSD_DecodeSymbol(struct GSD *d); void GSD_EndDecoding(struct GSD *d); void GBITS_Start(struct DecoderBuffer *b); bool GBITS_Decode(struct DecoderBuffer *b, uint32_t nbits, uint32_t *v); void GBITS_End(struct DecoderBuffer *b);',
                      '/* RAnsSymbolDecoder<B>: probability table, symbol count, rANS decoder (precision = ComputeRAnsPrecisionFromUniqueSymbolsBitLength(B) = RANS_P of the job) */\n'
                      'struct RSD { struct vec_prob probability_table_; uint32_t num_symbols_; struct RAnsDecoder *ans_; /* embedded member modelled as a separately allocated object */ int64_t remaining_at_entry; };']}
 SRC = 'contracts/symbols.c'
